@@ -14,6 +14,7 @@ import (
 	"os"
 	"sort"
 	"strings"
+	"time"
 
 	"github.com/bradenaw/juniper/iterator"
 	"github.com/bradenaw/juniper/xerrors"
@@ -47,6 +48,7 @@ type W struct {
 	w    *bufio.Writer
 	N    int
 	ByFn map[string]int
+	hung bool
 }
 
 func NewW(path string) (*W, error) {
@@ -94,8 +96,15 @@ func (w *W) put(v Vec) {
 }
 
 // call runs f, recording a panic instead of propagating it.
+// call records one vector. A helper that does not return within 20 s is recorded with panic = 2 (no rule accepts it) and
+// the remaining vectors are skipped: the goroutine that is stuck inside the library cannot be stopped.
 func (w *W) call(v Vec, f func(v *Vec)) {
-	func() {
+	if w.hung {
+		return
+	}
+	done := make(chan struct{})
+	go func() {
+		defer close(done)
 		defer func() {
 			if recover() != nil {
 				v.Panic = 1
@@ -103,7 +112,13 @@ func (w *W) call(v Vec, f func(v *Vec)) {
 		}()
 		f(&v)
 	}()
-	w.put(v)
+	select {
+	case <-done:
+		w.put(v)
+	case <-time.After(20 * time.Second):
+		w.hung = true
+		w.put(Vec{Op: v.Op, Fn: v.Fn, A: v.A, B: v.B, SS: v.SS, X: v.X, Y: v.Y, Z: v.Z, T: v.T, Panic: 2})
+	}
 }
 
 //go:noinline
